@@ -148,8 +148,8 @@ func runReal(e *env, cls int) {
 		nTx += len(b.B.Transactions)
 	}
 	c.Sample = map[string]any{"class": className[cls], "blocks": len(w.chain), "txs": nTx, "layout": w.lay.String(), "floor": w.floor,
-		"converted_prefix": w.pre, "meta_variant": int(w.meta), "flags_first": rc.f0.String(), "flags_last": rc.fF.String()}
-	c.Logf("world: %d blocks %d txs layout=%s floor=%d pre=%d meta=%d f0=%s fF=%s", len(w.chain), nTx, w.lay, w.floor, w.pre, w.meta, rc.f0, rc.fF)
+		"converted_prefix": w.pre, "leading_empty": w.leadEmpty, "trailing_empty": w.trailEmpty, "meta_variant": int(w.meta), "flags_first": rc.f0.String(), "flags_last": rc.fF.String()}
+	c.Logf("world: %d blocks %d txs (empty: first %d, last %d) layout=%s floor=%d pre=%d meta=%d f0=%s fF=%s", len(w.chain), nTx, w.leadEmpty, w.trailEmpty, w.lay, w.floor, w.pre, w.meta, rc.f0, rc.fF)
 	if len(w.chain) == 0 {
 		c.Probe("zero_block_db")
 	}
@@ -228,7 +228,11 @@ func runReal(e *env, cls int) {
 		rc.crashProbes(imagesInfo(images, func(i image) opInfo { return i.info }))
 		c.Nontrivial = len(images) >= 3 && nTx > 0
 	case clCommitErr:
-		ks := pickPoints(t, "fail.k", rc.nCom, 24)
+		nk := 24
+		if c.Tier == "thorough" {
+			nk = 200
+		}
+		ks := pickPoints(t, "fail.k", rc.nCom, nk)
 		for _, k := range ks {
 			img := w.base.Copy()
 			r := e.start(img, refBin, inject{schedSeed: rc.seed, failCommitAt: k, tag: fmt.Sprintf("fail%d", k)})
@@ -248,7 +252,7 @@ func runReal(e *env, cls int) {
 		}
 		c.Nontrivial = len(ks) >= 3 && nTx > 0
 	}
-	rc.downgrades(refImg, rc.fF, "completed database")
+	rc.downgrades(refImg, rc.fF, "completed database", false)
 }
 
 func imagesInfo[T any](xs []T, f func(T) opInfo) []opInfo {
@@ -284,6 +288,15 @@ func callStr(rl *runLog) string {
 	return s
 }
 
+func pickPointsFull(t interface {
+	Draw(string, int) int
+}, label string, n, full, sample int) []int {
+	if n <= full {
+		return pickPoints(t, label, n, n)
+	}
+	return pickPoints(t, label, n, sample)
+}
+
 // pickPoints: all of 1..n when n <= max, else the first, the last and tape-chosen others.
 func pickPoints(t interface {
 	Draw(string, int) int
@@ -299,8 +312,12 @@ func pickPoints(t interface {
 		return out
 	}
 	set := map[int]bool{1: true, n: true, n - 1: true, 2: true}
-	for len(set) < max {
+	// bounded: an exhausted tape answers 0 forever
+	for tries := 0; len(set) < max && tries < 3*max; tries++ {
 		set[1+t.Draw(label, n)] = true
+	}
+	for i := 0; i < max && len(set) < max; i++ {
+		set[1+i*(n-1)/(max-1)] = true
 	}
 	out := make([]int, 0, len(set))
 	for k := range set {
@@ -385,7 +402,13 @@ func (rc *realCase) crashProbes(infos []opInfo) {
 // to switch one off.
 func (rc *realCase) cancelClass() {
 	e, c, t := rc.e, rc.e.c, rc.e.c.T
-	points := pickPoints(t, "cancel.j", rc.nOps+1, 28)
+	// every operation of the uninterrupted schedule when it is short, a tape-chosen sample (always
+	// including the first two and the last two) otherwise
+	full, sample := 60, 20
+	if c.Tier == "thorough" {
+		full, sample = 400, 120
+	}
+	points := pickPointsFull(t, "cancel.j", rc.nOps+1, full, sample)
 	stages := map[string]bool{}
 	resumedWithState := false
 	for _, j := range points {
@@ -405,7 +428,10 @@ func (rc *realCase) cancelClass() {
 			stages[r.cancelStage] = true
 			c.Probe("cancel_at_" + r.cancelStage)
 		}
-		c.Logf("cancel at op %d (%s, %s): err=%v applied=%b calls=%s", j, r.cancelStage, r.cancelInfo, r.runErr, r.post.CurrentVersion, callStr(r.rl))
+		// Only the cancellation POINT is logged. What the cancelled start still does is decided by Go's
+		// select in pipeline.Source when the context is already cancelled and a worker is ready to
+		// receive (runtime-random); every outcome must satisfy the oracles, none is part of the trace.
+		c.Logf("cancel at op %d (%s, %s)", j, r.cancelStage, r.cancelInfo)
 		if m := checkStart(r, first, false); m != nil {
 			failM(c, m, fmt.Sprintf("start cancelled at operation %d (%s: %s)", j, r.cancelStage, r.cancelInfo))
 		}
@@ -465,7 +491,7 @@ func (rc *realCase) cancelClass() {
 			c.Fault("optional_flag_flip")
 			c.Probe("flag_enabled_between_restarts")
 		}
-		rc.downgrades(img, rc.f0, "interrupted database")
+		rc.downgrades(img, rc.f0, "interrupted database", true)
 		rc.finish(img, rc.fF, inject{schedSeed: mix(rc.seed, 5), tag: "flipF"}, fmt.Sprintf("start with flags %s cancelled at operation %d, restart with flags %s", rc.f0, j, rc.fF), "flag_flip")
 		c.Fault("restart")
 	}
@@ -475,7 +501,7 @@ func (rc *realCase) cancelClass() {
 // downgrades: binaries that lack a migration the database has applied or opted into must be
 // refused; the refusal must leave the database untouched. (The case "registry shorter than an
 // opted-in but not yet applied migration" is decided in its own class, see runBeyond.)
-func (rc *realCase) downgrades(img *memory.Database, have flags, what string) {
+func (rc *realCase) downgrades(img *memory.Database, have flags, what string, quiet bool) {
 	e, c, t := rc.e, rc.e.c, rc.e.c.T
 	md := readMeta(c, img)
 	var cands []flags
@@ -519,7 +545,11 @@ func (rc *realCase) downgrades(img *memory.Database, have flags, what string) {
 		cp := img.Copy()
 		r := e.start(cp, rc.binary(f), inject{schedSeed: 0, tag: "downgrade"})
 		c.Evals++
-		c.Logf("%s: binary %s: refused=%v (lacks applied=%v, lacks opted-in=%v)", what, f, r.refused != nil, lacksApplied, lacksOpted)
+		if quiet {
+			c.Logf("%s: binary %s tried", what, f)
+		} else {
+			c.Logf("%s: binary %s: refused=%v (lacks applied=%v, lacks opted-in=%v)", what, f, r.refused != nil, lacksApplied, lacksOpted)
+		}
 		if lacksApplied || lacksOpted {
 			c.Fault("downgrade_binary")
 			if r.refused == nil {
@@ -558,15 +588,31 @@ func runBeyond(e *env) {
 	if probe.runErr != nil || probe.refused != nil {
 		c.Fail("cannot_finish", "uninterrupted_run_failed", "uninterrupted upgrade failed: %v %v", probe.refused, probe.runErr)
 	}
+	// cancellation points inside the aux migration (or at the runner's read of its resume token just
+	// before): everything earlier has completed, so the outcome does not depend on a pipeline
+	firstAux := 0
+	for i, st := range probe.stages {
+		if st == fmt.Sprintf("toy%d", idxAux) {
+			firstAux = i + 1
+			break
+		}
+	}
+	if firstAux < 2 {
+		c.Broken("aux migration issued no database operation")
+	}
 	img := w.base.Copy()
 	var r *startRes
-	for j := probe.ops; j >= 1; j-- { // last cancellation point that leaves aux unapplied
+	for j := probe.ops; j >= firstAux-1; j-- { // last cancellation point that leaves aux unapplied
 		cand := w.base.Copy()
-		rr := e.start(cand, rc.binary(newer), inject{cancelAtOp: j, tag: "newer"})
+		nb := rc.binary(newer)
+		rr := e.start(cand, nb, inject{cancelAtOp: j, tag: "newer"})
 		c.Evals++
+		if m := checkStart(rr, nb, false); m != nil {
+			failM(c, m, fmt.Sprintf("newer binary cancelled at operation %d (%s)", j, rr.cancelStage))
+		}
 		if !rr.post.CurrentVersion.Has(idxAux) {
 			back := t.Draw("beyond.back", 3)
-			if back > 0 && j-back >= 1 {
+			if back > 0 && j-back >= firstAux-1 {
 				cand = w.base.Copy()
 				rr = e.start(cand, rc.binary(newer), inject{cancelAtOp: j - back, tag: "newer"})
 			}
@@ -666,6 +712,13 @@ func runToy(e *env, withNilCtx bool) {
 			},
 		}
 	}
+	defer func() {
+		for o := outcome(0); o < nOutcomes; o++ {
+			if executed[o] > 0 {
+				c.Probe("toy_outcome_" + o.String())
+			}
+		}
+	}()
 	c.Sample = map[string]any{"class": className[clToy], "toys": fmt.Sprintf("%+v", specs), "with_nil_ctxerr": withNilCtx}
 	c.Logf("toys: %+v enabled=%v", specs, enabled)
 
@@ -741,11 +794,6 @@ func runToy(e *env, withNilCtx bool) {
 		if ff && r.runErr == nil && r.post.CurrentVersion.Contains(b.target) {
 			finished = true
 			break
-		}
-	}
-	for o, k := range executed {
-		if k > 0 {
-			c.Probe("toy_outcome_" + o.String())
 		}
 	}
 	if !finished {
